@@ -1,6 +1,6 @@
 """C02 — and / or / negate are the pointwise boolean operations."""
 from .. import build, framework as fw, markers, trees, vmcheck
-from ..sexp import S, dump, pretty
+from ..sexp import S, unS, dump, pretty
 
 
 def build_history(ctx, sess, n_parse, n_ops, kinds=('and', 'or', 'not'), battery=False, pre=None):
@@ -36,6 +36,21 @@ def build_history(ctx, sess, n_parse, n_ops, kinds=('and', 'or', 'not'), battery
                     reg, r = sess.op(k, base, lo, hi)
                     if reg is not None:
                         regs.append(reg)
+                # ... and right after the marker was simplified / complexified for a range, it meets that very range as an operand of and / or
+                # (a memo shared between the operations would answer with the earlier result)
+                parts = ([] if lo == 'U' else ["python_full_version %s '%s'" % ('>=' if lo[0] == 'I' else '>', unS(lo[1]))]) + \
+                        ([] if hi == 'U' else ["python_full_version %s '%s'" % ('<=' if hi[0] == 'I' else '<', unS(hi[1]))])
+                rg, _ = sess.parse(' and '.join(parts))
+                nb, _ = sess.op('not', base)
+                if rg is not None and nb is not None:
+                    sess.op('simppv', nb, lo, hi)
+                    nrg, _ = sess.op('not', rg)
+                    for k, x, y in (('and', base, rg), ('or', base, nrg), ('and', nb, rg), ('or', nb, nrg), ('and', rg, base)):
+                        if k in kinds and x is not None and y is not None:
+                            reg, r = sess.op(k, x, y)
+                            if reg is not None:
+                                regs.append(reg)
+                                steps.append((k, (x, y), reg))
         # each of them takes part in a negation and in a disjunction / conjunction with a parsed marker at least once
         if 'not' in kinds:
             for x in regs[n0:]:
@@ -55,7 +70,7 @@ def build_history(ctx, sess, n_parse, n_ops, kinds=('and', 'or', 'not'), battery
     if battery and ('and' in kinds or 'or' in kinds):
         battery = []
         for key, vals in ((ctx.rng.choice(markers.VERSION_KEYS[1:2] + ['python_full_version']), ctx.rng.sample(markers.VERSIONS, 2)),
-                          (ctx.rng.choice(markers.STRING_KEYS), ctx.rng.sample([v for v in markers.STRVALS if v and "\x00" not in v], 2))):
+                          (ctx.rng.choice(markers.STRING_KEYS), ctx.rng.sample([v for v in markers.STRVALS if v and "\x00" not in v and "'" not in v and "\\" not in v and "\t" not in v], 2))):
             atoms = []
             for v in vals:
                 for op in ('<', '<=', '>', '>=', '==', '!='):
@@ -180,6 +195,9 @@ PAD = ['zz-pad-1', 'aa-pad-2', 'mm-pad-3']      # extras no generated marker men
 
 def eval_all(sess, reg, env, extras):
     r = sess.ask(['eval', str(reg), markers.env_sexp(env), [S(x) for x in extras]])
+    if r[0] == 'ok' and len(r) > 10 and r[10] != 'T':
+        sess.anomalies.append(('a repeated evaluation of the same marker reports other warnings than the first: %s / %s' % (dump(r[6])[:100], dump(r[7])[:100]),
+                               {'marker': markers.describe(sess, reg), 'env': env, 'extras': extras}))
     if extras and r[0] == 'ok':
         # the active extras are a set: another order, with unrelated names mixed in, must not change any answer
         other = [PAD[0]] + list(reversed(extras)) + PAD[1:]
